@@ -710,6 +710,10 @@ SYM_REST = SYM_START + list("0123456789.:#,")
 SYMBOLS = ["a", "b", "foo", "x1", "-", "+", "*", "...", ".", "..", "None", "True", "setv", "@a", "@", "a-b", "_5", "e5", "1e", "0x",
            "j", "J", "inf", "nan", "NaNx", "quote", "unquote", "unquote-splice", "quasiquote", "unpack-iterable",
            "unpack-mapping", "annotate", "a!", "!r", "=", "a=", "b", "f", "r", "t", "rf", "ℵ", "<class"]
+# spellings that hy.mangle maps to the same name as a sugar head, and near misses: none of them is the head symbol
+SUGAR_LOOKALIKES = ["unquote_splice", "unpack_iterable", "unpack_mapping", "unquote-splice_", "_unquote", "unquote_", "quote_",
+                    "Quote", "QUOTE", "quotE", "ｑuote", "quasi-quote", "quasi_quote", "unquote-Splice", "unpack_iterable_",
+                    "unpack-iterablé", "hyx_quote", "unquote-splice-", "unpack--iterable", "__quote", "quote-"]
 NUMBERS = ["0", "7", "-3", "+5", "1_000", "1,000", "0x1F", "0o17", "0b101", "007", "1.5", "-0.0", "1e5", "1E-3", ".5", "5.",
            "1_0.2_5", "NaN", "Inf", "-Inf", "+Inf", "1e400", "2j", "-1.5j", "1+2j", "1e3-2e-2j", "NaN+Infj", "NaNj", "-Infj",
            "123456789012345678901234567890", "0.1", "1e22", "1e16", "5e-324"]
@@ -850,7 +854,10 @@ def gen_form(rng, depth, in_field=False):
         items = [sub() for _ in range(n)]
         if o == "(" and rng.random() < 0.35:
             head = rng.choice([".", "quote", "unquote", "unquote-splice", "quasiquote", "unpack-iterable", "unpack-mapping",
-                               "annotate", "..", "...", "None"])
+                               "annotate", "..", "...", "None"] + SUGAR_LOOKALIKES[:6])
+            if rng.random() < 0.25:
+                head = rng.choice(SUGAR_LOOKALIKES)
+                items = items[:1] if items and rng.random() < 0.7 else items
             items = [head] + [gen_symbol(rng) if rng.random() < 0.6 else x for x in items]
         return o + sep().join(items) + c
     if r < 0.8:
